@@ -303,6 +303,14 @@ fn value_for_adjacent_enum(
     let var_ident = format_ident!("{}", &variant.ident_name.as_ref().unwrap());
     match (&variant.details, content_value) {
         (VariantDetails::Simple, None) => Some(quote! { #scope #type_ident::#var_ident}),
+        (VariantDetails::Item(type_id), Some(content_value)) => {
+            let item = type_space
+                .id_to_entry
+                .get(type_id)
+                .unwrap()
+                .output_value(type_space, content_value, scope)?;
+            Some(quote! { #scope #type_ident::#var_ident ( #item ) })
+        }
         (VariantDetails::Tuple(types), Some(content_value)) => {
             let tup = value_for_tuple(type_space, content_value, types, scope)?;
             Some(quote! { #scope #type_ident::#var_ident ( #( #tup ),* ) })
